@@ -1673,7 +1673,8 @@ pub unsafe extern "C" fn writev(fd: c_int, iov: *const libc::iovec, n: c_int) ->
 #[no_mangle]
 pub unsafe extern "C" fn posix_spawn(_pid: *mut pid_t, _path: *const c_char, _fa: *const c_void, _attr: *const c_void, _argv: *const *const c_char, _envp: *const *const c_char) -> c_int {
     if let Ctx::Real = ctx() {
-        return libc::ENOSYS;
+        // the harness's own business (re-running itself for a replay with its prelude)
+        return real!(posix_spawn: fn(*mut pid_t, *const c_char, *const c_void, *const c_void, *const *const c_char, *const *const c_char) -> c_int)(_pid, _path, _fa, _attr, _argv, _envp);
     }
     trap("posix_spawn");
     libc::ENOSYS
@@ -1682,7 +1683,8 @@ pub unsafe extern "C" fn posix_spawn(_pid: *mut pid_t, _path: *const c_char, _fa
 #[no_mangle]
 pub unsafe extern "C" fn posix_spawnp(_pid: *mut pid_t, _path: *const c_char, _fa: *const c_void, _attr: *const c_void, _argv: *const *const c_char, _envp: *const *const c_char) -> c_int {
     if let Ctx::Real = ctx() {
-        return libc::ENOSYS;
+        // the harness's own business (re-running itself for a replay with its prelude)
+        return real!(posix_spawnp: fn(*mut pid_t, *const c_char, *const c_void, *const c_void, *const *const c_char, *const *const c_char) -> c_int)(_pid, _path, _fa, _attr, _argv, _envp);
     }
     trap("posix_spawnp");
     libc::ENOSYS
